@@ -362,6 +362,22 @@ def run(chk, replay=None):
     import sys as _sys
     from ..core.runner import VERIF
     # same class in both threads too: per-class first-use state is shared exactly there
+    # first use: what a class encodes / decodes before any instance of it exists, and after one was created
+    fu = [[n, refs[n].a, refs[n].ph, refs[n].set, list(refs[n].cdb), refs[n].dec] for n in names]
+    pfu = _sp.run([_sys.executable, _os.path.join(VERIF, "harness", "props", "c09_worker.py"), "-", "-", _json.dumps(fu), "firstuse"],
+                  stdout=_sp.PIPE, cwd=VERIF, timeout=600)
+    for n, res in zip(names, _json.loads(pfu.stdout.decode())):
+        ev.case(("firstuse", n))
+        if res is None:
+            raise tlc.TLCFailure("first-use worker died for %s" % n)
+        before, after, exc = res
+        want_ = [list(refs[n].enc), None, sorted(refs[n].dec.items())]
+        if before != after or before[0] != want_[0] or [list(x) for x in before[2]] != [list(x) for x in want_[2]]:
+            chk.violation({"clause": "ClassDeterminesCodec", "cls": n, "other": n, "field": "",
+                           "detail": {"before_any_instance": before, "after_creating_one": after,
+                                      "isolated_encoding": want_[0], "isolated_decoding": want_[2]},
+                           "what": "what the class encodes/decodes before any instance exists vs after creating one (pristine process)"},
+                          dedup=("ClassDeterminesCodec", n, "firstuse"))
     fresh_pairs = [("Read16", "SynchronizeCache16"), ("Read10", "Write16"), ("Read16", "Read16")] if chk.quick else \
         [("Read16", "SynchronizeCache16"), ("Read10", "Write16"), ("Read16", "Read16"), ("Inquiry", "ReportLuns"),
          ("ATAPassThrough16", "ModeSense6"), ("Write16", "Write16"), ("Inquiry", "Inquiry")]
